@@ -18,6 +18,7 @@ import (
 	"github.com/alicebob/miniredis/v2"
 
 	"tunnox-core/internal/cloud/repos"
+	coreerrors "tunnox-core/internal/core/errors"
 	"tunnox-core/internal/core/storage"
 	"tunnox-core/internal/httpservice"
 	"tunnox-core/internal/protocol/httptypes"
@@ -130,6 +131,8 @@ type c19World struct {
 
 type c19WorldOpts struct {
 	counterTTL time.Duration // hybrid DefaultCacheTTL override (0 = repository default, 1h)
+	sharedTTL  time.Duration // hybrid SharedCacheTTL override (0 = repository default, 1h)
+	persist    bool          // attach a persistent tier (map-backed double) and enable persistence
 }
 
 func c19NewWorld(t testing.TB, kind string, rd *c19Redis, o c19WorldOpts) *c19World {
@@ -147,7 +150,15 @@ func c19NewWorld(t testing.TB, kind string, rd *c19Redis, o c19WorldOpts) *c19Wo
 		if o.counterTTL > 0 {
 			c.DefaultCacheTTL = o.counterTTL
 		}
+		if o.sharedTTL > 0 {
+			c.SharedCacheTTL = o.sharedTTL
+		}
+		c.EnablePersistent = o.persist
 		return c
+	}
+	var pers storage.PersistentStorage
+	if o.persist {
+		pers = vk.NewMapPersistent("persistent") // one database shared by all nodes
 	}
 	var stores []storage.Storage
 	switch kind {
@@ -158,7 +169,7 @@ func c19NewWorld(t testing.TB, kind string, rd *c19Redis, o c19WorldOpts) *c19Wo
 	case "hybrid-mem":
 		g := vk.NewGated("cache", mem())
 		w.gates = append(w.gates, g)
-		stores = append(stores, storage.NewHybridStorageWithSharedCache(ctx, g, nil, nil, cfg()))
+		stores = append(stores, storage.NewHybridStorageWithSharedCache(ctx, g, nil, pers, cfg()))
 	case "hybrid-redis", "hybrid-2node":
 		if rd == nil {
 			t.Fatalf("[setup failed] store kind %s needs redis", kind)
@@ -177,7 +188,7 @@ func c19NewWorld(t testing.TB, kind string, rd *c19Redis, o c19WorldOpts) *c19Wo
 			}
 			g := vk.NewGated(name, mem())
 			w.gates = append(w.gates, g)
-			stores = append(stores, storage.NewHybridStorageWithSharedCache(ctx, g, c19NoClose{sh}, nil, cfg()))
+			stores = append(stores, storage.NewHybridStorageWithSharedCache(ctx, g, c19NoClose{sh}, pers, cfg()))
 		}
 	default:
 		t.Fatalf("[setup failed] unknown store kind %s", kind)
@@ -210,7 +221,7 @@ func (w *c19World) node(i int) *c19Node { return w.nodes[i%len(w.nodes)] }
 
 type c19Op struct {
 	No     int    `json:"no"`
-	K      string `json:"k"` // create | delete | lookup | update
+	K      string `json:"k"` // create | delete | lookup | update | sweep (CleanupExpiredMappings)
 	C      int64  `json:"c,omitempty"`
 	Sub    string `json:"sub,omitempty"`
 	Base   string `json:"base,omitempty"`
@@ -235,6 +246,7 @@ type c19Res struct {
 	RPort   int    `json:"r_port,omitempty"`
 	Status  int    `json:"http_status,omitempty"`
 	Skipped string `json:"skipped,omitempty"`
+	Gone    bool   `json:"mapping_gone,omitempty"` // update: the mapping record of the referenced claim does not exist
 }
 
 func c19TargetHost(c int64) string { return fmt.Sprintf("c%d.lan", c) }
@@ -288,6 +300,7 @@ func c19Exec(w *c19World, op c19Op, prior []c19Res) c19Res {
 		m, err := n.repo.GetMapping(ctx, ref.ID)
 		if err != nil {
 			res.Ran, res.Skipped = false, "mapping not readable: "+c19Short(err)
+			res.Gone = coreerrors.IsCode(err, coreerrors.CodeMappingNotFound)
 			return res
 		}
 		if m.FullDomain != ref.Op.full() || m.ClientID != ref.Op.C {
@@ -311,6 +324,12 @@ func c19Exec(w *c19World, op c19Op, prior []c19Res) c19Res {
 			m.ExpiresAt = time.Now().Unix() + 7200
 		}
 		if err := n.repo.UpdateMapping(ctx, m); err != nil {
+			res.Err = c19Short(err)
+		} else {
+			res.OK = true
+		}
+	case "sweep":
+		if _, err := n.repo.CleanupExpiredMappings(ctx); err != nil {
 			res.Err = c19Short(err)
 		} else {
 			res.OK = true
@@ -360,6 +379,10 @@ type c19Claim struct {
 	Deleted bool   `json:"deleted"`
 	Active  bool   `json:"active"`
 	Expired bool   `json:"expired"`
+	// StatusExpired: status set to "expired" by its owner; MaybeGone: an expiry sweep ran
+	// while the claim was expired (by time or status) — the sweep MAY have removed it
+	StatusExpired bool `json:"status_expired,omitempty"`
+	MaybeGone     bool `json:"maybe_swept,omitempty"`
 }
 
 type c19Truth struct {
@@ -377,40 +400,57 @@ func c19Audit(results []c19Res) *c19Truth {
 	byNo := map[int]*c19Claim{}
 	idCount := map[string]int{}
 	for _, r := range results {
-		if r.Ran && r.Op.K == "create" && r.OK {
+		if !r.Ran || !r.OK {
+			continue
+		}
+		switch r.Op.K {
+		case "create":
 			c := &c19Claim{No: r.Op.No, Client: r.Op.C, Name: r.Op.full(), ID: r.ID,
 				Host: c19TargetHost(r.Op.C), Port: c19CreatePort(r.Op.No), Active: true}
 			tr.claims = append(tr.claims, c)
 			byNo[c.No] = c
 			idCount[c.ID]++
 			tr.touched[c.Name] = true
-		}
-	}
-	for _, r := range results {
-		if !r.Ran || !r.OK {
-			continue
-		}
-		c := byNo[r.Op.Ref]
-		if c == nil {
-			continue
-		}
-		switch r.Op.K {
 		case "delete":
-			if r.Op.C == c.Client {
+			if c := byNo[r.Op.Ref]; c != nil && r.Op.C == c.Client {
 				c.Deleted = true
 			}
 		case "update":
+			c := byNo[r.Op.Ref]
+			if c == nil {
+				continue
+			}
+			c.MaybeGone = false // the record was there to be updated
 			switch r.Op.Upd {
 			case "port":
 				c.Port = c19UpdatePort(r.Op.No)
-			case "inactive", "expired":
-				c.Active = false
+			case "inactive":
+				c.Active, c.StatusExpired = false, false
+			case "expired":
+				c.Active, c.StatusExpired = false, true
 			case "active":
-				c.Active = true
+				c.Active, c.StatusExpired = true, false
 			case "past":
 				c.Expired = true
 			case "future":
 				c.Expired = false
+			}
+		case "sweep":
+			// the expiry sweep may remove expired mappings — only those
+			for _, c := range tr.claims {
+				if !c.Deleted && (c.Expired || c.StatusExpired) {
+					c.MaybeGone = true
+				}
+			}
+		}
+	}
+	// a possibly swept claim whose name was successfully claimed again WAS swept
+	for _, c := range tr.claims {
+		if c.MaybeGone && !c.Deleted {
+			for _, c2 := range tr.claims {
+				if c2 != c && c2.Name == c.Name && c2.No > c.No {
+					c.Deleted = true
+				}
 			}
 		}
 	}
@@ -426,6 +466,27 @@ func c19Audit(results []c19Res) *c19Truth {
 	}
 	sort.Strings(tr.dupIDs)
 	return tr
+}
+
+// definite returns the live claims of name that no sweep may have removed.
+func (tr *c19Truth) definite(name string) []*c19Claim {
+	var out []*c19Claim
+	for _, c := range tr.live[name] {
+		if !c.MaybeGone {
+			out = append(out, c)
+		}
+	}
+	return out
+}
+
+// maybe reports whether name has a live claim that a sweep may have removed.
+func (tr *c19Truth) maybe(name string) bool {
+	for _, c := range tr.live[name] {
+		if c.MaybeGone {
+			return true
+		}
+	}
+	return false
 }
 
 // c19Readings lists the names a Host header may be read as (most lenient reading).
